@@ -270,6 +270,8 @@ class Assembler:
         if k == "data":
             return {"db": 1, "dw": 2, "dl": 3, "pointer": 3}[st["d"]] * len(st["es"])
         if k == "ascii":
+            if not st["s"].isascii():
+                raise Unspecified("character without an ASCII byte in .ascii")
             return len(st["s"].encode("ascii"))
         if k == "incbin":
             return len(self.files[st["f"]])
